@@ -56,7 +56,7 @@ Definition dec_float (v : str) : option num :=
   end.
 
 (* ---- the numbers of the code as it was: python int() and float(), ASCII *)
-Definition py_ws (c : N) : bool := (c =? 32) || ((9 <=? c) && (c <=? 13)) || ((28 <=? c) && (c <=? 31)).
+Definition py_ws (c : N) : bool := (c =? 32) || ((9 <=? c) && (c <=? 13)).      (* int() and float() do not strip 0x1c-0x1f (probed) *)
 Fixpoint py_lstrip (s : str) : str := match s with c :: s' => if py_ws c then py_lstrip s' else s | [] => [] end.
 Definition py_strip (s : str) : str := rev (py_lstrip (rev (py_lstrip s))).
 (* digit (["_"] digit)* , the whole of s *)
